@@ -404,6 +404,19 @@ def run_check(prop, harness_specs, tier, seed, explanation, level="other", budge
                     continue
                 rep = rpool.apply(_work, (("replay", rr["module"], rr["harness"], rr["case"],
                                            {"values": f["values"], "tag": f["tag"]}),))
+                oc = (rep.get("replay") or {}).get("outcome")
+                if not rep["error"] and not rep["replay"]["reproduced"] and isinstance(oc, dict) and oc.get("tag") \
+                        and ".harness:" not in str(oc["tag"]):
+                    # the concrete run on the real code fails too, but at another predicate (e.g. the symbolic run
+                    # stopped at a type check that only proxies fail): what reproduces is what is reported
+                    f = dict(f, tag=oc["tag"], message=oc.get("message", f.get("message", "")),
+                             where=oc.get("where", f.get("where")), trace=oc.get("trace", f.get("trace")))
+                    rep["replay"]["reproduced"] = True
+                    key = (rr["harness"], f["tag"])
+                    k = match_known(known, prop, rr["harness"], f["tag"], rr["case"])
+                    if (k is not None and key in known_hits) or \
+                            any(v["harness"] == rr["harness"] and v["tag"] == f["tag"] for v in violations):
+                        continue
                 if rep["error"] or not rep["replay"]["reproduced"]:
                     errors.append((rr["harness"], rr["case"],
                                    f"counterexample did not reproduce concretely: tag={f['tag']} "
